@@ -423,6 +423,10 @@ def _rfloat(rnd):
     return x
 
 
+J_WIDE = ["\u00e9", "\u00b5", "\u00df", "\u65e5", "\u03b1", "\U0001F600", "\n", "\t", "\r", "\x08", "\x0c", "\x1f", "\x7f",
+          "\"", "\\", "/", "\u2028", "\ufeff"] * 6
+
+
 def _rjson(rnd, depth=0):
     k = rnd.random()
     if depth >= 3 or k < 0.45:
@@ -432,11 +436,14 @@ def _rjson(rnd, depth=0):
         if c == 1:
             return _rfloat(rnd)
         if c == 2:
-            return "".join(rnd.choice(Z_CHARS) for _ in range(rnd.randint(0, 6)))
+            # characters outside printable ASCII reach the text only as JSON escapes (json.dumps)
+            alpha = Z_CHARS + (J_WIDE if rnd.random() < 0.4 else [])
+            return "".join(rnd.choice(alpha) for _ in range(rnd.randint(0, 6)))
         return [None, True, False][c - 3]
     if k < 0.75:
         return [_rjson(rnd, depth + 1) for _ in range(rnd.randint(0, 3))]
-    return {"".join(rnd.choice("abcxyz _") for _ in range(rnd.randint(1, 3))) + str(i): _rjson(rnd, depth + 1)
+    return {"".join(rnd.choice(["a", "b", "c", "x", "y", "z", " ", "_", "\u00e9", "\n", "\""]) for _ in range(rnd.randint(1, 3)))
+            + str(i): _rjson(rnd, depth + 1)
             for i in range(rnd.randint(0, 3))}
 
 
@@ -487,6 +494,10 @@ def _inv(o):
 TAG_NAMES = ["aa", "ab", "zz", "x1", "q9", "tg", "uu", "k2", "mm"]
 
 
+# longer record types beginning like each standard one (and like a comment's neighbour "X#")
+LONG_RTS = ["HX", "H1", "SQ", "Sx", "LNK", "L1", "CTG", "PTH", "EX", "E2", "FRG", "GP", "OX", "UX", "X#", "h", "e"]
+
+
 def random_custom(rnd, bad):
     """A custom record around the boundary between positional fields and tags: [plain fields] + k
     tag-shaped fields that are positional (value impossible for the datatype: `bad`, the table
@@ -515,7 +526,7 @@ def random_custom(rnd, bad):
             left.insert(0, random_tag(rnd, names[1]))     # a good tag, left of a field that is none
     plain = ["p%d" % rnd.randint(0, 9) for _ in range(rnd.choice([0, 0, 1, 2]))]
     # the record type of a custom record is any text that is not a standard one
-    rt = rnd.choice(["X", "Y", "Z", "X", "Y", "Z", "XY", "s", "x1", "custom", "1"])
+    rt = rnd.choice(["X", "Y", "Z", "X", "Y", "Z", "XY", "s", "x1", "custom", "1"] + LONG_RTS)
     return "\t".join([rt] + plain + left + real)
 
 
@@ -658,7 +669,7 @@ def random_doc(rnd, ver, bad=()):
             if nm != "*":
                 unames.append(nm)
         for i in range(rnd.randint(0, 2)):
-            add([rnd.choice("XYZ"), "f%d" % i] +
+            add([rnd.choice(["X", "Y", "Z"] + LONG_RTS), "f%d" % i] +
                 ["v%d" % rnd.randint(0, 99) + (rnd.choice(SPLIT_ASCII) + "w" if rnd.random() < 0.15 else "")
                  for _ in range(rnd.randint(0, 2))])
         for i in range(rnd.randint(0, 2)):
@@ -761,7 +772,8 @@ def check_c01(out, tier, seed):
     docs = set()
     maxenum = maxrand = 0
     nspecial = nspecial_runs = 0
-    nbound = nbound_runs = nshaped = nshaped_runs = 0
+    nbound = nbound_runs = nshaped = nshaped_runs = nlongrt = 0
+    jesc = {}
     rejects, kept = [], {}
     samples = []
     for c0 in range(0, len(alljobs), CHUNK):
@@ -790,11 +802,15 @@ def check_c01(out, tier, seed):
                 vmodes[c[1]] = vmodes.get(c[1], 0) + 1
             for x in g["lines"]:
                 f = x.split("\t")
-                rt = "#" if x.startswith("#") else (f[0] if f[0] in "HSLCPEGFOU" else "custom")
+                rt = "#" if x.startswith("#") else (f[0] if f[0] in KNOWN_RT else "custom")
                 rts[g["ver"] + ":" + rt] = rts.get(g["ver"] + ":" + rt, 0) + 1
                 for y in f[1:]:
                     if project.TAG_RE.match(y):
                         dts[y[3]] = dts.get(y[3], 0) + 1
+                        if y[3] == "J" and "\\u" in y:
+                            jesc[g["ver"] + ":" + rt] = jesc.get(g["ver"] + ":" + rt, 0) + len(g["runs"])
+                if rt == "custom" and len(f[0]) > 1:
+                    nlongrt += len(g["runs"])
             if not all(_plain(x) for x in g["lines"]):
                 nspecial += 1
                 nspecial_runs += len(g["runs"])
@@ -820,6 +836,9 @@ def check_c01(out, tier, seed):
     if not need_rt <= set(rts) or not set("AifZJHB") <= set(dts) or set(entries) != set(ENTRIES) \
             or set(vlevels) != set("0123") or set(vmodes) != {"explicit", "auto"}:
         raise MachineryError("coverage constraint not met: %r %r %r" % (sorted(rts), sorted(dts), sorted(entries)))
+    if not (need_rt - {"gfa1:#", "gfa2:#"}) <= set(jesc) or not nlongrt:
+        raise MachineryError("J tags with \\u escapes not on every record type: %r; long record types: %d"
+                             % (sorted(jesc), nlongrt))
     if nbound < len(meta["boundary"]) or nshaped < 1:
         raise MachineryError("boundary catalogue of custom records not run: %d groups, %d with tag-shaped fields"
                              % (nbound, nshaped))
@@ -839,6 +858,8 @@ def check_c01(out, tier, seed):
                              tag_variants=meta["nvar"])
     out.cov["record_types_covered"] = rts
     out.cov["tag_datatypes_covered"] = dts
+    out.cov["evaluations_with_escaped_json_by_record_type"] = jesc
+    out.cov["evaluations_with_long_record_type"] = nlongrt
     out.cov["entry_points_covered"] = entries
     out.cov["vlevels_covered"] = vlevels
     out.cov["version_modes_covered"] = vmodes
@@ -983,7 +1004,8 @@ def selftest():
     # itself is a finding at level 0 on trees without the repair of doc2-1)
     cust = run_group(dict(id="st9", kind="rand", ver="gfa2", cat=dict(doc=[], tv=0, ord=""),
                           lines=["S\ta\t4\tACGT", "X\tsample\txx:i:+5\txx:i:2\tzz:f:1e3",
-                                 "Y\tq1:f:1e3\tcn:B:c,300\tkk:Z:second"],
+                                 "Y\tq1:f:1e3\tcn:B:c,300\tkk:Z:second",
+                                 "SQ\tp\tjf:J:[\"\\u00E9\\u65e5\",\"\\ud83d\\ude00\"]"],
                           cfgs=[[1, "auto", "str"], [3, "explicit", "fileLF"]]))
     base.append(cust)
     rep = lambda a, b: (lambda o: each(o, lambda ls: [x.replace(a, b) for x in ls]))
@@ -993,6 +1015,9 @@ def selftest():
         (mut(cust, "posdrop", rep("\txx:i:+5\t", "\t")), "C01.field"),
         (mut(cust, "posorder", rep("\txx:i:+5\txx:i:2\t", "\txx:i:2\txx:i:+5\t")), "C01.missing"),
         (mut(cust, "posbad", rep("\tcn:B:c,300\t", "\tcn:B:s,300\t")), "C01.missing"),   # now a tag, and q1 with it
+        (mut(cust, "jraw", rep("\\u00e9", "\u00e9")), "C01.missing"),            # the character itself: not even a tag
+        (mut(cust, "jcase", rep('["\\u00e9\\u65e5", "\\ud83d\\ude00"]', '["\\u00E9\\u65e5","\\ud83d\\ude00"]')), ""),   # another spelling
+        (mut(cust, "rtcut", rep("SQ\tp\t", "S\tp\t")), "C01.missing"),          # record type cut to its first letter
         (mut(cust, "tagval", rep("\tzz:f:1000.0", "\tzz:f:1e3")), ""),          # a spelling: accepted
     ]
     allg = base + [m for m, _ in muts]
